@@ -36,5 +36,6 @@ def check(run, model, tier):
     hsmrules.cursor_invariant(run, model, ['init', 'dispatch', 'is_in', 'child_state'])
     n = hsmrules.signal_sets(run, model, ['dispatch'])
     run.floor('handler-call sites in dispatch', n, 6)
+    hsmrules.status_distinct_rule(run, model)
     run.assume('H1-H4 handler protocol (see C01); a handler that answers HANDLED/IGNORED/UNHANDLED has not called chart.trans')
     hsmrules.protocol_census(run, model)
